@@ -49,7 +49,7 @@ type Ctx struct {
 	seen   map[string]bool
 }
 
-func (c *Ctx) Count(k string) { c.Res.Distribution[k]++ }
+func (c *Ctx) Count(k string)         { c.Res.Distribution[k]++ }
 func (c *Ctx) CountN(k string, n int) { c.Res.Distribution[k] += n }
 
 // Distinct registers a case fingerprint; nontrivial says whether it counts.
